@@ -1,6 +1,7 @@
 package main
 
 import (
+	"encoding/hex"
 	"context"
 	"encoding/json"
 	"flag"
@@ -832,7 +833,7 @@ func l2Request(c *l2Case, res *l2Run) map[string]any {
 	obs := parsedNodes(c.Q)
 	segs := obs["segs"]
 	return map[string]any{"k": "l2", "q": hx(c.Q), "segs": segs, "tt": tbl.Descs, "samples": samples, "args": args,
-		"cls": tbl.Cls(), "obs": res.obs()}
+		"cls": tbl.Cls(), "qcls": clsOf(c.Q), "noParserCheck": !hooksAvailable, "obs": res.obs()}
 }
 
 func describeL2(c *l2Case) map[string]any {
@@ -975,6 +976,36 @@ func firstN(s string, n int) string {
 	return s
 }
 
+// siblingStatement derives, from a statement with an output expression of several targets,
+// the statement in which the last target names another member of the same type.
+func siblingStatement(c *l2Case) (recentStmt, bool) {
+	obs := parsedNodes(c.Q)
+	segs, _ := obs["segs"].([]any)
+	off := 0
+	for _, sj := range segs {
+		sm, _ := sj.(map[string]any)
+		rawHex, _ := sm["raw"].(string)
+		raw, _ := hex.DecodeString(rawHex)
+		types, _ := sm["types"].([]any)
+		if sm["k"] == "output" && len(types) >= 2 {
+			last, _ := types[len(types)-1].(map[string]any)
+			tn, _ := hex.DecodeString(fmt.Sprint(last["t"]))
+			mem, _ := hex.DecodeString(fmt.Sprint(last["m"]))
+			if e, ok := zoo.ByName(string(tn)); ok && string(mem) != "*" {
+				for _, tag := range e.Tags {
+					old := "&" + string(tn) + "." + string(mem)
+					if tag != string(mem) && strings.Count(string(raw), old) == 1 && !strings.ContainsAny(tag, "\"' ") {
+						nraw := strings.Replace(string(raw), old, "&"+string(tn)+"."+tag, 1)
+						return recentStmt{c.Q[:off] + nraw + c.Q[off+len(raw):], c.Samples}, true
+					}
+				}
+			}
+		}
+		off += len(raw)
+	}
+	return recentStmt{}, false
+}
+
 type recentStmt struct {
 	q       string
 	samples []any
@@ -1075,6 +1106,24 @@ func runL2(args []string) {
 		}
 		c := &l2Case{Q: "DELETE FROM t WHERE a IN ($Ints[:])", Samples: []any{zoo.Ints{}}, Args: []any{ints}}
 		res := runL2Case(c, c.Samples, c.Args)
+		// on the same goroutine, right after it: a statement without expressions arrives
+		// unchanged, one with an input arrives as its text with the placeholder
+		for _, f := range []struct{ q, want string }{
+			{"SELECT name FROM t -- plain\n", "SELECT name FROM t -- plain\n"},
+			{"SELECT x FROM t WHERE a = $Person.id", "SELECT x FROM t WHERE a = @sqlair_0"},
+			{"UPDATE t SET b = 'x'", "UPDATE t SET b = 'x'"},
+		} {
+			fc := &l2Case{Q: f.q}
+			if strings.Contains(f.q, "$Person") {
+				fc.Samples, fc.Args = []any{zoo.Person{}}, []any{zoo.Person{ID: 7}}
+			}
+			fr := runL2Case(fc, fc.Samples, fc.Args)
+			if fr.panic == "" && fr.prepOk && fr.bindOk && fr.sql != f.want {
+				rep.addHolds("C01", Finding{Case: map[string]any{"q": hx(f.q), "text": printable(f.q), "after": fmt.Sprintf("a statement with %d slice elements", n)}, Kind: "holds",
+					Detail: fmt.Sprintf("after a very long statement the next one was not sent as written: the driver received %d bytes beginning %q, expected %q", len(fr.sql), firstN(fr.sql, 60), f.want),
+					Holds: map[string]bool{"C01": false}})
+			}
+		}
 		hyp["big-sql-statements"]++
 		want := "DELETE FROM t WHERE a IN (@sqlair_0"
 		if res.panic != "" || !res.bindOk || !strings.HasPrefix(res.sql, want) || strings.Count(res.sql, "@sqlair_") != n || len(res.params) != n ||
@@ -1181,6 +1230,13 @@ func runL2(args []string) {
 					}
 				}
 			}
+			if res.prepOk {
+				// a sibling of this statement: the same text with the last target of a
+				// multi-target output expression changed to another member of its type
+				if sib, ok := siblingStatement(c); ok {
+					recent = append(recent, sib)
+				}
+			}
 			if res.prepOk && len(recent) > 0 {
 				// other statements prepared between this one's Prepare and its run (the last few
 				// statements of the run, which often share its types): nothing changes
@@ -1195,7 +1251,7 @@ func runL2(args []string) {
 			}
 			if res.prepOk {
 				recent = append(recent, recentStmt{c.Q, c.Samples})
-				if len(recent) > 6 {
+				for len(recent) > 6 {
 					recent = recent[1:]
 				}
 			}
